@@ -14,6 +14,7 @@ import concurrent.futures.process as cf_process
 import contextlib
 import multiprocessing
 import os
+import pickle
 import threading
 import time
 from pathlib import Path
@@ -85,7 +86,39 @@ class PlainPayload:
         return f'PlainPayload({self.uid})'
 
 
+# payloads the loop cannot carry to a captured result ("poison"): the statement does not say how a run that
+# contains one ends; what it does say about the *other* payloads still holds (check_disturbed)
+POISON_KINDS = ('payload-lock', 'outcome-lock', 'undeclared', 'payload-local', 'outcome-local')
+
+
+def _guard(kind, uid):
+    """something that cannot cross a process boundary"""
+    if kind.endswith('-lock'):
+        return threading.Lock()
+    return lambda: uid                       # a local function: not importable by name
+
+
+class GuardedPayload(PlainPayload):
+    """a payload that holds something that cannot be pickled"""
+    __slots__ = ('guard',)
+
+    def __init__(self, uid, spec, guard):
+        super().__init__(uid, spec)
+        self.guard = guard
+
+    def __getstate__(self):
+        return (self.uid, self.spec, self.guard)
+
+    def __setstate__(self, st):
+        self.uid, self.spec, self.guard = st
+
+    def __repr__(self):
+        return f'GuardedPayload({self.uid})'
+
+
 def _declared(spec):
+    if spec.get('poison') == 'undeclared':   # declares something else: the loop is NOT asked to capture this one
+        return (UnicodeError,)
     if spec.get('exc') is None:
         decl = spec.get('raises', 'none')
         return () if decl == 'none' else RAISES_DECL[decl](ValueError)
@@ -95,6 +128,9 @@ def _declared(spec):
 def make_payload(spec):
     """spec: {'uid', 'exc': kind|None, 'raises': decl, 'cls': 'plain'|'proto'|'visual', 'sleep': ms}"""
     kind = spec.get('cls', 'plain')
+    poison = spec.get('poison') or ''
+    if poison.startswith('payload-'):
+        return GuardedPayload(spec['uid'], spec, _guard(poison, spec['uid']))
     if kind == 'plain':
         return PlainPayload(spec['uid'], spec)
     from tatsu.parproc.payload import Payload, VisualPayload
@@ -156,8 +192,11 @@ def work(payload, *args, **kwargs):
     if spec.get('exc') is not None:
         name, a = expected_exc(spec)
         raise EXC_KINDS[spec['exc']](*a)
-    return {'v': expected_value(spec, args, kwargs),
-            'meta': {'pid': os.getpid(), 't0': t0, 't1': time.monotonic()}}
+    out = {'v': expected_value(spec, args, kwargs),
+           'meta': {'pid': os.getpid(), 't0': t0, 't1': time.monotonic()}}
+    if (spec.get('poison') or '').startswith('outcome-'):
+        out['guard'] = _guard(spec['poison'], spec['uid'])      # an outcome that cannot be shipped back
+    return out
 
 
 def pick(outcome):
@@ -178,7 +217,7 @@ def normal(x, depth=0):
 
 def strip_meta(outcome):
     """-> (value without the meta record, meta|None)"""
-    if isinstance(outcome, dict) and set(outcome) == {'v', 'meta'}:
+    if isinstance(outcome, dict) and set(outcome) - {'guard'} == {'v', 'meta'}:
         return outcome['v'], outcome['meta']
     if isinstance(outcome, (list, tuple)) and len(outcome) == 2 and outcome[0] == 'picked':
         v, m = strip_meta(outcome[1])
@@ -207,8 +246,13 @@ def record_of(result):
     }
 
 
-def consume(gen, n, on_yield=None):
-    """drive the generator the loop returns; -> (records, end)"""
+def consume(gen, n, on_yield=None, abandon=None, facts=None):
+    """drive the generator the loop returns; -> (records, end)
+
+    abandon = {'after': k, 'how': 'stop' | 'stop-close' | 'close'}: the consumer abandons the run when it holds
+    the k-th result: it sets the stop event every Result carries (public field `stop`) and keeps iterating
+    ('stop'), sets it and closes the generator ('stop-close'), or just closes the generator ('close').
+    facts (dict) is filled with what was done."""
     records = []
     end = 'exhausted'
     it = iter(gen)
@@ -219,7 +263,25 @@ def consume(gen, n, on_yield=None):
             except StopIteration:
                 break
             records.append(record_of(r))
+            leave = False
+            if abandon is not None and len(records) == abandon['after']:
+                if abandon['how'] in ('stop', 'stop-close'):
+                    ev = getattr(r, 'stop', None)
+                    try:
+                        ev.set()
+                        ok = bool(ev.is_set())
+                    except Exception as e:              # no such public field any more: unobserved, not an alarm
+                        ok = False
+                        if facts is not None:
+                            facts['stop_unobserved'] = f'{type(e).__name__}: {e}'[:200]
+                    if facts is not None:
+                        facts['stop_set'] = ok
+                    del ev
+                leave = abandon['how'] in ('close', 'stop-close')
             del r
+            if leave:
+                end = 'closed'
+                break
             if on_yield is not None:
                 on_yield()
             if len(records) > n + 4:
@@ -235,8 +297,13 @@ def consume(gen, n, on_yield=None):
     finally:
         close = getattr(it, 'close', None)
         if close is not None:
-            with contextlib.suppress(BaseException):
+            try:
                 close()
+            except Deadlock as e:
+                if end == 'closed':                     # the consumer's own close() blocks for ever
+                    end = 'deadlock:' + str(e)
+            except BaseException:
+                pass
     return records, end
 
 
@@ -246,6 +313,119 @@ def consume(gen, n, on_yield=None):
 
 def key_of(rec):
     return repr((rec.get('uid'), rec.get('outcome'), rec.get('exc'), rec.get('exc_args')))
+
+
+def judge_record(s, r, args, kwargs, pickable, mode):
+    """does the result record r carry what the task function does for the payload spec s? -> [(sig, text)]"""
+    out = []
+    if s.get('exc') is None:
+        want = normal(expected_value(s, args, kwargs))
+        if pickable:
+            want = ['picked', want]
+        if r['exc'] is not None:
+            out.append((f'{mode}-spurious-exception', f'{mode}: payload {s["uid"]} returned normally but its result carries {r["exc"]}{r["exc_args"]}'))
+        elif r['outcome'] != want:
+            out.append((f'{mode}-wrong-outcome', f'{mode}: payload {s["uid"]}: outcome {r["outcome"]!r} != the function\'s {want!r}'))
+    else:
+        name, a = expected_exc(s)
+        if r['exc'] is None:
+            out.append((f'{mode}-lost-exception', f'{mode}: payload {s["uid"]} raised {name} but its result carries no exception (outcome {r["outcome"]!r})'))
+        elif r['exc'] != name or r['exc_args'] != normal(a) or not r['exc_is_exception']:
+            out.append((f'{mode}-wrong-exception', f'{mode}: payload {s["uid"]} raised {name}{a} but the result carries {r["exc"]}{r["exc_args"]}'))
+    return out
+
+
+def _check_open(specs, args, kwargs, recs, end, pickable, mode, stop_after, facts):
+    """one history of a run the statement does not determine completely: the consumer abandoned it after
+    `stop_after` results (stop event / close), or a payload in it cannot be carried to a captured result
+    (spec['poison']: it cannot cross the process boundary, or raises something its raises() does not declare).
+
+    Judged, because the statement says it for every payload whatever happens to the others: never two results for
+    one payload, never a result for something that was not submitted, every delivered result of a payload without
+    poison carries what the function does for it (after the stop request an InterruptedError result is left open),
+    no deadlock, and - when the run was not abandoned and the iteration ends normally - one result for every
+    payload without poison.  Left open and only counted: how such a run ends (exception to the caller or not),
+    which of the other payloads still get a result when it ends early, what a result of a poison payload carries."""
+    out = []
+    kind = end.split(':')[0]
+    has_poison = any(s.get('poison') for s in specs)
+    results = [r for r in recs if 'escaped' not in r and 'foreign' not in r]
+    pre = '' if mode == 'par' else 'seq-'
+    if kind in ('deadlock', 'overrun'):
+        out.append((pre + kind, f'{mode}: the iteration ended with {end} after {len(results)} results for {len(specs)} payloads'))
+    elif kind == 'exception':
+        stopped = stop_after is not None and len(results) >= stop_after
+        if has_poison or stopped:
+            facts[f'{mode}_open_end_exception'] = end.split(':', 1)[1]
+            facts[f'{mode}_results_before_open_end'] = len(results)
+        else:
+            out.append((pre + end, f'{mode}: the iteration ended with {end} after {len(results)} of {len(specs)} results '
+                        + ' '.join(r['escaped'] for r in recs if 'escaped' in r)[:200]))
+    for r in recs:
+        if 'foreign' in r:
+            out.append((f'{mode}-foreign', f'{mode}: yielded something that is not a Result: {r["foreign"]}'))
+    byuid = {s['uid']: s for s in specs}
+    count = {}
+    for i, r in enumerate(results):
+        u = r['uid']
+        count[u] = count.get(u, 0) + 1
+        s = byuid.get(u)
+        if s is None:
+            continue
+        if s.get('poison'):
+            facts[f'{mode}_poison_results'] = facts.get(f'{mode}_poison_results', 0) + 1
+            continue
+        if stop_after is not None and i >= stop_after and r['exc'] == 'InterruptedError':
+            facts[f'{mode}_interrupted_after_stop'] = facts.get(f'{mode}_interrupted_after_stop', 0) + 1
+            continue
+        out.extend(judge_record(s, r, args, kwargs, pickable, mode))
+    complete = kind == 'exhausted' and stop_after is None
+    for s in specs:
+        c = count.pop(s['uid'], 0)
+        if c > 1:
+            out.append((f'{mode}-duplicate', f'{mode}: payload {s["uid"]} got {c} results'))
+        elif c == 0 and complete and not s.get('poison'):
+            out.append((f'{mode}-missing', f'{mode}: payload {s["uid"]} got no result although the iteration ended normally '
+                                           f'({len(results)} yielded for {len(specs)} payloads)'))
+    for u in count:
+        out.append((f'{mode}-unknown-payload', f'{mode}: a result for a payload id {u!r} that was not submitted'))
+    facts[f'{mode}_results'] = len(results)
+    return out
+
+
+def _uniq(out):
+    seen = set()
+    uniq = []
+    for sig, text in out:
+        if sig not in seen:
+            seen.add(sig)
+            uniq.append((sig, text))
+    return uniq
+
+
+def check_disturbed(specs, args, kwargs, par, par_end, seq, seq_end, pickable=False, stop_after=None):
+    """-> ([(sig_suffix, text)], facts) for a disturbed run (see _check_open); the sequential history is the
+    complete, never abandoned run over the same specs"""
+    facts = {}
+    out = _check_open(specs, args, kwargs, par, par_end, pickable, 'par', stop_after, facts)
+    out += _check_open(specs, args, kwargs, seq, seq_end, pickable, 'seq', None, facts)
+    if par_end == 'exhausted' and seq_end == 'exhausted' and stop_after is None:
+        clean = {s['uid'] for s in specs if not s.get('poison')}
+        a = sorted(key_of(r) for r in par if r.get('uid') in clean)
+        b = sorted(key_of(r) for r in seq if r.get('uid') in clean)
+        if a != b:
+            from collections import Counter
+            ca, cb = Counter(a), Counter(b)
+            only_p = sorted((ca - cb).elements())[:3]
+            only_s = sorted((cb - ca).elements())[:3]
+            out.append(('multiset', f'parallel and sequential results differ as multisets: only parallel {only_p}, only sequential {only_s}'))
+    return _uniq(out), facts
+
+
+def check_stopped_sequential(specs, args, kwargs, recs, end, pickable, stop_after):
+    """a sequential run the consumer stopped after `stop_after` results -> ([(sig, text)], facts)"""
+    facts = {}
+    return _uniq(_check_open(specs, args, kwargs, recs, end, pickable, 'seq', stop_after, facts)), facts
 
 
 def check_history(specs, args, kwargs, par, par_end, seq, seq_end, pickable=False):
@@ -290,20 +470,7 @@ def check_history(specs, args, kwargs, par, par_end, seq, seq_end, pickable=Fals
             s = byuid.get(r.get('uid'))
             if s is None or 'escaped' in r or 'foreign' in r:
                 continue
-            if s.get('exc') is None:
-                want = normal(expected_value(s, args, kwargs))
-                if pickable:
-                    want = ['picked', want]
-                if r['exc'] is not None:
-                    out.append((f'{mode}-spurious-exception', f'{mode}: payload {s["uid"]} returned normally but its result carries {r["exc"]}{r["exc_args"]}'))
-                elif r['outcome'] != want:
-                    out.append((f'{mode}-wrong-outcome', f'{mode}: payload {s["uid"]}: outcome {r["outcome"]!r} != the function\'s {want!r}'))
-            else:
-                name, a = expected_exc(s)
-                if r['exc'] is None:
-                    out.append((f'{mode}-lost-exception', f'{mode}: payload {s["uid"]} raised {name} but its result carries no exception (outcome {r["outcome"]!r})'))
-                elif r['exc'] != name or r['exc_args'] != normal(a) or not r['exc_is_exception']:
-                    out.append((f'{mode}-wrong-exception', f'{mode}: payload {s["uid"]} raised {name}{a} but the result carries {r["exc"]}{r["exc_args"]}'))
+            out.extend(judge_record(s, r, args, kwargs, pickable, mode))
     if par_end == 'exhausted' and seq_end == 'exhausted':
         a = sorted(key_of(r) for r in par)
         b = sorted(key_of(r) for r in seq)
@@ -339,6 +506,7 @@ class Nondeterminism(Exception):
 
 CURRENT = None          # the scheduler of the run in progress (single-threaded)
 REAL_PPE = cf_process.ProcessPoolExecutor
+REAL_TPE = concurrent.futures.ThreadPoolExecutor
 _REAL_EVENT = threading.Event
 
 
@@ -391,24 +559,25 @@ class DetFuture(cf_base.Future):
         return super().done()
 
 
-class DetExecutor(REAL_PPE):
-    """stands in for ProcessPoolExecutor: submit() returns an unstarted future; the scheduler runs it"""
+class _DetExecutorMixin:
+    """submit() returns an unstarted future; the scheduler runs it"""
 
-    def __init__(self, max_workers=None, *a, **kw):   # no processes, no queues
+    def __init__(self, max_workers=None, *a, **kw):   # no processes, no threads, no queues
         s = CURRENT
         if s is None:
-            raise HookMissing('DetExecutor created outside a scheduled run')
+            raise HookMissing('deterministic executor created outside a scheduled run')
         self.vt_sched = s
         self.vt_max_workers = max_workers
         self.vt_shutdown = False
         s.executors.append(self)
-        s.log(('executor', max_workers))
+        s.log(('executor', max_workers) if isinstance(self, REAL_PPE) else ('executor', max_workers, 'threads'))
 
     def submit(self, fn, /, *args, **kwargs):
         s = self.vt_sched
         if self.vt_shutdown:
             raise RuntimeError('cannot schedule new futures after shutdown')
         f = DetFuture(s.next_seq(), fn, args, kwargs)
+        f.vt_transport = isinstance(self, REAL_PPE)     # only a process pool pickles what it is given
         if s.hash_rev:
             f.vt_hash = 4096 - f.vt_seq
         s.on_submit(f)
@@ -422,6 +591,15 @@ class DetExecutor(REAL_PPE):
         return cf_base.Executor.map(self, fn, *iterables, timeout=timeout)
 
 
+class DetExecutor(_DetExecutorMixin, REAL_PPE):
+    """stands in for ProcessPoolExecutor"""
+
+
+class DetThreadExecutor(_DetExecutorMixin, REAL_TPE):
+    """stands in for ThreadPoolExecutor (never instantiated by the unchanged loop on a GIL build; installed so that a
+    loop that falls back to threads stays single-threaded and replayable)"""
+
+
 class Scheduler:
     """decides which running future completes at every point where the loop can observe a completion.
 
@@ -431,8 +609,10 @@ class Scheduler:
     as_completed/wait machinery (there at least one completion is forced while the event is unset).
     """
 
-    def __init__(self, workers, prefix=(), rng=None, p_stop=0.5, expect=None, hash_rev=False):
+    def __init__(self, workers, prefix=(), rng=None, p_stop=0.5, expect=None, hash_rev=False, transport=False):
         self.workers = workers
+        self.transport = transport    # model the process boundary: a call / a result that cannot be pickled fails its future
+        self.transport_failures = 0
         self.hash_rev = hash_rev      # order in which as_completed hands out futures that are already done
         self.prefix = list(prefix)
         self.expect = expect          # option counts recorded by the previous run for the prefix
@@ -494,8 +674,23 @@ class Scheduler:
                 return
             fn, args, kwargs = f.vt_call
             f.vt_call = None
+            transport = self.transport and getattr(f, 'vt_transport', False)
+            if transport:
+                try:                        # the pool's queue feeder: a call that cannot be pickled fails its future
+                    pickle.dumps((fn, args, kwargs))
+                except Exception as e:
+                    self.transport_failures += 1
+                    self.log(('raised', f.vt_seq, type(e).__name__, why, 'call not picklable'))
+                    f.set_exception(e)
+                    return
             try:
                 r = fn(*args, **kwargs)
+                if transport:
+                    try:                    # the worker: a result that cannot be pickled is sent back as its exception
+                        pickle.dumps(r)
+                    except Exception:
+                        self.transport_failures += 1
+                        raise
             except BaseException as e:      # what a worker would ship back
                 self.log(('raised', f.vt_seq, type(e).__name__, why))
                 f.set_exception(e)
@@ -578,11 +773,19 @@ class Scheduler:
             self.complete(self.queue[0], 'shutdown')
 
 
+class _LocalEvent(_REAL_EVENT):
+    """in-process stand-in for the manager's Event proxy; like the proxy it can be pickled (the transport model only
+    asks whether a call could be pickled, the objects themselves are handed over)"""
+
+    def __reduce__(self):
+        return (_LocalEvent, ())
+
+
 class _FakeManager:
     """multiprocessing.Manager() stand-in for single-process runs: an in-process Event"""
 
     def Event(self):
-        return _REAL_EVENT()
+        return _LocalEvent()
 
 
 @contextlib.contextmanager
@@ -596,10 +799,14 @@ def patched(fake_manager=True):
 
     _ = concurrent.futures.ProcessPoolExecutor        # resolve the lazy attribute first
     setattr_(concurrent.futures, 'ProcessPoolExecutor', DetExecutor)
+    _ = concurrent.futures.ThreadPoolExecutor
+    setattr_(concurrent.futures, 'ThreadPoolExecutor', DetThreadExecutor)
     try:
         import tatsu.parproc.pmap as pmap_mod
         if 'ProcessPoolExecutor' in vars(pmap_mod):
             setattr_(pmap_mod, 'ProcessPoolExecutor', DetExecutor)
+        if 'ThreadPoolExecutor' in vars(pmap_mod):
+            setattr_(pmap_mod, 'ThreadPoolExecutor', DetThreadExecutor)
     except Exception:
         pass
     if not hasattr(cf_base, 'threading'):
@@ -636,21 +843,23 @@ def call_entry(entry, specs, args, kwargs, parallel, max_workers, pickable):
     return parproc(work, payloads, *args, parallel=parallel, max_workers=max_workers, **kw)
 
 
-def run_scheduled(cfg, prefix=(), rng=None, expect=None):
+def run_scheduled(cfg, prefix=(), rng=None, expect=None, abandon=None):
     """one single-threaded run of the real parallel loop under a chosen schedule.
 
-    cfg: {'specs', 'workers', 'args', 'kwargs', 'entry', 'pickable'}; -> dict (history + scheduler facts)
+    cfg: {'specs', 'workers', 'args', 'kwargs', 'entry', 'pickable'[, 'transport']}; abandon: see consume()
+    -> dict (history + scheduler facts)
     """
     global CURRENT
     sched = Scheduler(cfg['workers'], prefix=prefix, rng=rng, p_stop=cfg.get('p_stop', 0.5), expect=expect,
-                      hash_rev=cfg.get('hash_rev', False))
+                      hash_rev=cfg.get('hash_rev', False), transport=cfg.get('transport', False))
     specs = cfg['specs']
+    facts = {}
     with patched():
         CURRENT = sched
         try:
             gen = call_entry(cfg.get('entry', 'parproc'), specs, cfg.get('args', ()), cfg.get('kwargs', {}),
                              True, cfg['workers'], cfg.get('pickable', False))
-            records, end = consume(gen, len(specs), on_yield=sched.on_yield)
+            records, end = consume(gen, len(specs), on_yield=sched.on_yield, abandon=abandon, facts=facts)
         finally:
             CURRENT = None
     return {
@@ -659,16 +868,18 @@ def run_scheduled(cfg, prefix=(), rng=None, expect=None):
         'forced_in_wait': sched.forced_in_wait, 'blocked_in_result': sched.blocked_in_result,
         'max_pending': sched.max_pending, 'completed_while_busy': sched.completed_while_busy,
         'ran_at_shutdown': sched.ran_at_shutdown, 'left_in_queue': len(sched.queue), 'polls': sched.polls,
+        'transport_failures': sched.transport_failures, 'abandon': facts,
+        'thread_executors': sum(1 for e in sched.executors if not isinstance(e, REAL_PPE)),
     }
 
 
-def run_sequential(cfg, fake_manager=True):
+def run_sequential(cfg, fake_manager=True, abandon=None, facts=None):
     specs = cfg['specs']
     ctx = _only_manager() if fake_manager else contextlib.nullcontext()
     with ctx:
         gen = call_entry(cfg.get('entry', 'parproc'), specs, cfg.get('args', ()), cfg.get('kwargs', {}),
                          False, cfg.get('workers'), cfg.get('pickable', False))
-        return consume(gen, len(specs))
+        return consume(gen, len(specs), abandon=abandon, facts=facts)
 
 
 @contextlib.contextmanager
